@@ -246,6 +246,18 @@ func applyUpdates(eco string, reqs []MReq, ups []Upd) []MReq {
 	out := append([]MReq(nil), reqs...)
 	for _, u := range ups {
 		found := false
+		exact := false
+		if eco != "npm" {
+			n := 0
+			for i := range out {
+				if out[i].Name == u.Name {
+					n++
+					exact = exact || out[i].Req == u.From
+				}
+			}
+			exact = exact && n >= 2
+		}
+	declarations:
 		for i := range out {
 			switch {
 			case eco == "npm" && u.Alias != "":
@@ -259,9 +271,14 @@ func applyUpdates(eco string, reqs []MReq, ups []Upd) []MReq {
 					found = true
 				}
 			default:
-				if out[i].Name == u.Name {
+				// a pom.xml may require one package in several places (dependencies and dependencyManagement): an
+				// update belongs to the declaration that carries its From requirement
+				if out[i].Name == u.Name && (!exact || out[i].Req == u.From) {
 					out[i].Req = u.To
 					found = true
+					if exact {
+						break declarations
+					}
 				}
 			}
 		}
@@ -419,7 +436,17 @@ func graphNodes(g *resolve.Graph) []GNode {
 // declaredTwice: the npm manifest requires the package more than once (plainly and / or through aliases).
 func (s *Scenario) declaredTwice(name string) bool {
 	if s.Eco != "npm" {
-		return false
+		// pom.xml, bulk update: the package is required in dependencies and in dependencyManagement
+		if s.Opts.Mode != "update" {
+			return false
+		}
+		n := 0
+		for _, r := range s.Manifest {
+			if r.Name == name {
+				n++
+			}
+		}
+		return n >= 2
 	}
 	n := 0
 	for _, r := range s.Manifest {
